@@ -103,6 +103,54 @@ func runC03(c *Ctx) {
 			for _, call := range callsIn(sd, func(call ssa.CallInstruction) bool { return invokeIs(call, stypPkg, "Signer", "Sign") }) {
 				signCall = call.(*ssa.Call)
 			}
+			// the signature may be made by an unexported helper that hashes the payload it is given and returns
+			// Signer.Sign's results as they are (signPayload(ctx, signer, key, payload))
+			var signHelper *ssa.Function
+			var signInner *ssa.Call
+			payloadParam := -1
+			if signCall == nil {
+				for _, call := range callsIn(sd, func(call ssa.CallInstruction) bool {
+					g := call.Common().StaticCallee()
+					return g != nil && g.Pkg == sd.Pkg && g.Blocks != nil && (g.Object() == nil || !g.Object().Exported())
+				}) {
+					g := call.Common().StaticCallee()
+					inner := callsIn(g, func(call ssa.CallInstruction) bool { return invokeIs(call, stypPkg, "Signer", "Sign") })
+					if len(inner) != 1 {
+						continue
+					}
+					ic := inner[0].(*ssa.Call)
+					// returned as it is
+					direct := false
+					for _, gb := range g.Blocks {
+						if ret, ok := gb.Instrs[len(gb.Instrs)-1].(*ssa.Return); ok && len(ret.Results) == 2 {
+							e0, ok0 := ret.Results[0].(*ssa.Extract)
+							if ok0 && e0.Tuple == ssa.Value(ic) && e0.Index == 0 {
+								direct = true
+							}
+						}
+					}
+					if !direct {
+						continue
+					}
+					// the digest signed is SHA-256 of one of the helper's parameters
+					sl.Visit(ic.Call.Args[2], func(v ssa.Value) bool {
+						if hc, ok := v.(*ssa.Call); ok && calleeIs(hc, "crypto/sha256.Sum256") {
+							for i, p := range g.Params {
+								if hc.Call.Args[0] == ssa.Value(p) {
+									payloadParam = i
+								}
+							}
+							return false
+						}
+						return true
+					}, nil)
+					if payloadParam >= 0 {
+						signHelper, signInner = g, ic
+						signCall = call.(*ssa.Call)
+					}
+				}
+			}
+			_ = signInner
 			for _, b := range sd.Blocks {
 				for _, in := range b.Instrs {
 					st, ok := in.(*ssa.Store)
@@ -127,7 +175,9 @@ func runC03(c *Ctx) {
 			c.S.Check(okSig, "R1", "endorse.SignDoc:stored signature", c.pos(marshal.Pos()), "Signature is Signer.Sign's result", "the stored signature is not the result of Signer.Sign")
 			// digest operand
 			okDigest := false
-			if signCall != nil {
+			if signCall != nil && signHelper != nil {
+				okDigest = payloadParam < len(signCall.Call.Args) && signCall.Call.Args[payloadParam] == bytesVal
+			} else if signCall != nil {
 				sl.Visit(signCall.Call.Args[2], func(v ssa.Value) bool {
 					if call, ok := v.(*ssa.Call); ok && calleeIs(call, "crypto/sha256.Sum256") {
 						if call.Call.Args[0] == bytesVal {
